@@ -72,7 +72,7 @@ TEXTS = {
     "C15": {
         "technique": SIM + "fault 'lost registration' injected at every place a class can occur x argument route, handler throws or returns (forked abort probe)",
         "design_ref": "DESIGN.md 4 (C15)",
-        "text": "From a legal plan one class's records are withheld: as a listed base, a method parameter or a definition parameter (update must report unknown_class with that class's id and install nothing; after the registration arrives the next update is clean), or as the dynamic class of an argument at each virtual position through references, pointers, shared_ptr, virtual_ptr from a base reference, from the exact static type, copied, moved (the call or construction must report it before any table read or definition); final on another dynamic type must report a method table error; with a returning handler a forked child must die by SIGABRT after exactly one report.",
+        "text": "From a legal plan one class's records are withheld: as a listed base, a method parameter or a definition parameter (update must report unknown_class with that class's id and install nothing; after the registration arrives the next update is clean), or as the dynamic class of an argument at each virtual position through references, pointers, shared_ptr, virtual_ptr from a base reference, from the exact static type, copied, moved (the call or construction must report it before any table read or definition); final on another dynamic type must report a method table error; with a returning handler a forked child must die by SIGABRT after exactly one report. The typed world adds the same call-time oracle through the real thunks and virtual_ptr constructors with C++ static types (an object of an unregistered leaf class, dynamic and exact-type routes).",
         "note": "checked policies only (debug-shaped with the simulator's ids, stock debug with std_rtti, checked+indirect, deferred); final on an unregistered exact type is outside the property (final skips the look-up by design)",
     },
     "C16": {
